@@ -934,6 +934,10 @@ IDENT = Spec("Identity", (), None, lambda x: x, lambda x: _f(x),
 
 # ---------------------------------------------------------------------------------------
 def run(ck):
+    if ck.shard == 0:
+        # repeat-call monitor (shared, added by the framework owner): history / reused-object / memory-layout independence
+        from .. import repeat
+        repeat.run(ck, PID, repeat.table(PID, ck.rng("repeat")))
     thorough = ck.tier == "thorough"
     rng = ck.rng("c09")
     bspecs = builtin_specs()
